@@ -218,6 +218,34 @@ class StopInReleaseWindowCb:
         env.schedule_event(env.now + 1.0, -2, dev.restore_functionality, EventType.RESTORE)
 
 
+class NosyCb:
+    """Workload callback (receive callback on a Buffer): user code that looks at the buffer that is calling it."""
+
+    def __call__(self, dev, part):
+        dev.level()
+        dev.stored_parts
+        dev.upstream
+        dev.waiting_for_part_start_time
+
+
+class TrimCb:
+    """Workload callback (receive callback on a Buffer): every k-th arriving Batch loses its last part (Batch.parts may
+    be modified directly; the removed part is kept by the user)."""
+
+    def __init__(self, every):
+        self.every, self.n, self.kept = every, 0, []
+
+    def __call__(self, dev, part):
+        if instrument.PROBING:
+            return
+        parts = getattr(part, 'parts', None)
+        if parts is None or len(parts) < 2:
+            return
+        self.n += 1
+        if self.n % self.every == 0:
+            self.kept.append(parts.pop())
+
+
 class RestoredCb:
     def __init__(self, log, dev_id, idx):
         self.log, self.dev_id, self.idx = log, dev_id, idx
@@ -712,6 +740,10 @@ def build(spec, bus=None, script=True, system=None, known=None):
         elif k == 'buffer':
             d = Buffer(name=nm, upstream=ups, minimum_delay=it.get('delay', 0), capacity=it.get('cap'),
                        value=it.get('value', 0))
+            if it.get('nosy'):
+                d.add_receive_part_callback(NosyCb())
+            if it.get('trim'):
+                d.add_receive_part_callback(TrimCb(it['trim']))
         elif k == 'gate':
             if it.get('subclass'):
                 d = SubclassGate(nm, ups, it['pred'])
